@@ -240,4 +240,4 @@ func VC02_Redistribute_Quick() { vc02Redistribute(3, 11) }
 func VC02_Finalize_Quick()     { vc02Finalize(2) }
 func VC02_Finalize_Thorough()  { vc02Finalize(3) }
 func VC02_Epoch_Quick()        { vc02Epoch(vChoice("shape", 2), vChoice("fitness pattern", 3)) }
-func VC02_Epoch_Thorough()     { vc02Epoch(2+vChoice("shape", 3), vChoice("fitness pattern", 3)) }
+func VC02_Epoch_Thorough()     { vc02Epoch(2+vChoice("shape", 2), vChoice("fitness pattern", 3)) }
